@@ -66,6 +66,8 @@ def scenario(main, body, imr0, timer, kb_irq=True, read_kil=True):
     loop = (bytes([0x32, 0x80, 0xF2, 0xB0, 0x24, 0x6C, 0x00, 0xA8, 0x02, 0x20, 0x00, 0xA8, 0x00, 0x02, 0x0C,
                    # memory-card window: store, load back, keep the loaded value (B0 24: [X++] <- A); LCD status read
                    0xA8, 0x10, 0x00, 0x04, 0x88, 0x10, 0x00, 0x04, 0xB0, 0x24, 0x88, 0x01, 0x20, 0x00, 0xB0, 0x24,
+                   # LCD data read on the left chip (advances its column counter without any write), value kept
+                   0x88, 0x0B, 0x20, 0x00, 0xB0, 0x24,
                    0x04, SUB & 0xFF, (SUB >> 8) & 0xFF]) + SLEEPS[main])
     if not read_kil:
         loop = loop[3:]      # never read KIL: key events pile up in the queue (a full queue is a state to snapshot too)
